@@ -465,6 +465,8 @@ impl<'a> Parser<'a> {
                 if self.peek(0) == &closing {
                     return Err(self.err(self.peek(0), "invalid token after ','", true));
                 }
+            } else if self.peek(0) != &closing {
+                return Err(self.err(self.peek(0), "Expected ',' or closing token", true));
             }
         }
         self.advance();
